@@ -1,11 +1,26 @@
 /-
-  Helper lemmas for property C10 (`Cmr/Rel.lean`): entries and shapes of the elementary transformations, the
-  permutation inverse, slicing an inserted line away again, and a uniform total-unimodularity lemma for matrices whose
-  lines are zero, ± lines of a TU matrix, or ± unit vectors.
+  Helper lemmas for property C10 (`Cmr/Rel.lean`):
+  * entries and shapes of the elementary transformations (`ent_insertRow`, `ent_insertCol`, `Step.apply_wf`), when a step
+    applies and what it returns (`apply_P_iff`, `apply_S_iff`, `apply_rowIns`, `apply_colIns`), ternarity of the result;
+  * undoing a permutation (`invPerm`, `sub_invPerm`) and slicing an inserted line away (`skipIdx`, `sub_skip_insertRow`);
+    a column insertion is a row insertion of the transpose (`transpose_colIns`);
+  * total unimodularity of matrices whose lines are zero, `±` lines of a TU matrix or `±` unit vectors
+    (`isTU_of_rowsFrom`, `isTU_insertRow`, `isTU_insertCol`, `isTU_perm`); the pivot of a TU matrix is TU
+    (`pivot_isTotallyUnimodular`, `isTU_pivot3`, `isTU_pivot3_eq`);
+  * regularity: entrywise signings, `isRegular_sub`, `isRegular_transpose`, `isRegular_rowIns/colIns`;
+  * balancedness: `isBalanced_iff_nodup`, `isBalanced_sub`, sign scaling (`isBalanced_rowScale`), sparse and duplicate
+    rows (`isBalanced_insertRow_sparse`, `hole_remove_twin`, `isBalanced_insertRow_copy1`);
+  * series-parallel: through `SPE` and signed embeddings of C08 (`isSP_sub`, `isSP_transpose`, `isSP_scale`,
+    `isSP_rowIns/colIns`);
+  * lifting per-step relations of a self-dual class to step lists (`steps_lift`, `steps_lift_inv`).
 -/
 import CmrProofs.Lemmas.SumsLemmas
 import CmrProofs.Lemmas.BalancedLemmas
 import CmrProofs.Props.C02
+import CmrProofs.Props.C17
+import CmrProofs.Props.C08
+import CmrProofs.Props.C13
+import Mathlib.LinearAlgebra.Matrix.SchurComplement
 import Cmr.Rel
 import Cmr.Graph
 
@@ -951,6 +966,1121 @@ theorem isRegular_colIns {M : Mat} {m n : Nat} (hwf : M.wf m n = true) {s : Step
   rw [← isRegular_transpose (wf_insertCol hwf), transpose_colIns hwf hs,
     isRegular_rowIns (wf_transpose m n M) h2 (by rw [h3]; exact h1), isRegular_transpose hwf]
 
+
+/-! ### balancedness -/
+
+/-- balancedness through duplicate-free index lists in any order -/
+theorem isBalanced_iff_nodup (m n : Nat) (M : Mat) :
+    isBalanced m n M = true ↔
+      isTernary M = true ∧
+        ∀ rs cs : List Nat, (∀ x ∈ rs, x < m) → (∀ x ∈ cs, x < n) → rs.Nodup → cs.Nodup → rs.length = cs.length →
+          isUnbalancedHoleL M rs cs = false := by
+  constructor
+  · intro h
+    have ht := ((Cmr.Props.C17.isBalanced_iff m n M).mp h).1
+    refine ⟨ht, fun rs cs hr hc hnr hnc hl => ?_⟩
+    cases hv : isUnbalancedHoleL M rs cs with
+    | false => rfl
+    | true =>
+      rw [← isUnbalancedHole_sub M rs cs rs.length rfl hl.symm] at hv
+      have := Cmr.Props.C17.violator_refutes m n M rs cs hl hr hc hnr hnc ht hv
+      rw [h] at this; cases this
+  · rintro ⟨ht, h⟩
+    rw [Cmr.Props.C17.isBalanced_iff]
+    refine ⟨ht, fun k rs cs hrs hcs hlr hlc => ?_⟩
+    rw [isUnbalancedHole_sub M rs cs k hlr hlc]
+    exact h rs cs (fun x hx => List.mem_range.mp (hrs.subset hx)) (fun x hx => List.mem_range.mp (hcs.subset hx))
+      (hrs.nodup List.nodup_range) (hcs.nodup List.nodup_range) (by omega)
+
+/-- the hole predicate only reads the entries at the listed positions; index maps can be moved into the lists -/
+theorem isUnbalancedHoleL_map (M M' : Mat) (f g : Nat → Nat) (rs cs : List Nat)
+    (h : ∀ r ∈ rs, ∀ c ∈ cs, ent M' r c = ent M (f r) (g c)) :
+    isUnbalancedHoleL M' rs cs = isUnbalancedHoleL M (rs.map f) (cs.map g) := by
+  unfold isUnbalancedHoleL twoPerLineL entrySumL
+  simp only [List.all_map, List.countP_map, List.map_map]
+  congr 1
+  · congr 1
+    · apply all_congr_mem
+      intro r hr
+      simp only [Function.comp]
+      congr 1
+      apply List.countP_congr
+      intro c hc
+      simp only [Function.comp, h r hr c hc]
+    · apply all_congr_mem
+      intro c hc
+      simp only [Function.comp]
+      congr 1
+      apply List.countP_congr
+      intro r hr
+      simp only [Function.comp, h r hr c hc]
+  · congr 2
+    congr 1
+    apply List.map_congr_left
+    intro r hr
+    simp only [Function.comp]
+    congr 1
+    apply List.map_congr_left
+    intro c hc
+    simp only [Function.comp, h r hr c hc]
+
+theorem nodup_map_getD {R : List Nat} (hR : R.Nodup) {rs : List Nat} (hrs : rs.Nodup) (hlt : ∀ x ∈ rs, x < R.length) :
+    (rs.map (fun i => R.getD i 0)).Nodup := by
+  rw [List.nodup_map_iff_inj_on hrs]
+  intro a ha b hb hab
+  have h1 := hlt a ha
+  have h2 := hlt b hb
+  simp only [List.getD_eq_getElem?_getD, List.getElem?_eq_getElem h1, List.getElem?_eq_getElem h2,
+    Option.getD_some] at hab
+  exact (List.Nodup.getElem_inj_iff hR).mp hab
+
+/-- balancedness is inherited by submatrices along duplicate-free in-range index lists (any order) -/
+theorem isBalanced_sub {M : Mat} {m n : Nat} (hwf : M.wf m n = true) (h : isBalanced m n M = true) (R C : List Nat)
+    (hR : ∀ x ∈ R, x < m) (hC : ∀ x ∈ C, x < n) (hnR : R.Nodup) (hnC : C.Nodup) :
+    isBalanced R.length C.length (sub M R C) = true := by
+  obtain ⟨ht, hh⟩ := (isBalanced_iff_nodup m n M).mp h
+  rw [isBalanced_iff_nodup]
+  refine ⟨?_, fun rs cs hr hc hnr hnc hl => ?_⟩
+  · rw [isTernary_iff_ent (wf_sub M R C)]
+    intro i hi j hj
+    rw [ent_sub M R C hi hj]
+    exact (isTernary_iff_ent hwf).mp ht _ (hR _ (List.getElem_mem hi)) _ (hC _ (List.getElem_mem hj))
+  · rw [isUnbalancedHoleL_map M (sub M R C) (fun i => R.getD i 0) (fun j => C.getD j 0) rs cs
+      (fun r hr' c hc' => ent_sub_getD M R C (hr r hr') (hc c hc'))]
+    apply hh
+    · intro x hx
+      simp only [List.mem_map] at hx
+      obtain ⟨i, hi, rfl⟩ := hx
+      have := hr i hi
+      rw [List.getD_eq_getElem?_getD, List.getElem?_eq_getElem this, Option.getD_some]
+      exact hR _ (List.getElem_mem this)
+    · intro x hx
+      simp only [List.mem_map] at hx
+      obtain ⟨i, hi, rfl⟩ := hx
+      have := hc i hi
+      rw [List.getD_eq_getElem?_getD, List.getElem?_eq_getElem this, Option.getD_some]
+      exact hC _ (List.getElem_mem this)
+    · exact nodup_map_getD hnR hnr hr
+    · exact nodup_map_getD hnC hnc hc
+    · simpa using hl
+
+theorem isBalanced_perm {M : Mat} {m n : Nat} (hwf : M.wf m n = true) {rows cols : List Nat}
+    (hr : isPermOf rows m = true) (hc : isPermOf cols n = true) : isBalanced m n (sub M rows cols) = isBalanced m n M := by
+  obtain ⟨hl1, hlt1, hn1⟩ := (isPermOf_iff _ _).mp hr
+  obtain ⟨hl2, hlt2, hn2⟩ := (isPermOf_iff _ _).mp hc
+  obtain ⟨il1, ilt1, in1⟩ := (isPermOf_iff _ _).mp (isPermOf_invPerm hr)
+  obtain ⟨il2, ilt2, in2⟩ := (isPermOf_iff _ _).mp (isPermOf_invPerm hc)
+  have hw : (sub M rows cols).wf m n = true := by
+    have := wf_sub M rows cols; rwa [hl1, hl2] at this
+  rw [Bool.eq_iff_iff]
+  constructor
+  · intro h
+    have := isBalanced_sub hw h (invPerm rows m) (invPerm cols n) ilt1 ilt2 in1 in2
+    rwa [il1, il2, sub_invPerm hwf hr hc] at this
+  · intro h
+    have := isBalanced_sub hwf h rows cols hlt1 hlt2 hn1 hn2
+    rwa [hl1, hl2] at this
+
+
+/-- index map that undoes `skipIdx` away from `pos` -/
+def unskip (pos k : Nat) : Nat := if k < pos then k else k - 1
+
+/-- a hole of `insertRow M pos row` that avoids the new row is a hole of `M` -/
+theorem hole_insertRow_avoid {M : Mat} {m n pos : Nat} (hwf : M.wf m n = true) (hp : pos ≤ m) (row : List Int)
+    (rs cs : List Nat) (hpos : pos ∉ rs) :
+    isUnbalancedHoleL (insertRow M pos row) rs cs = isUnbalancedHoleL M (rs.map (unskip pos)) cs := by
+  have hl := length_of_wf hwf
+  have := isUnbalancedHoleL_map M (insertRow M pos row) (unskip pos) id rs cs (by
+    intro r hr c hc
+    have hne : r ≠ pos := fun e => hpos (e ▸ hr)
+    rw [ent_insertRow M row (by omega)]
+    unfold unskip
+    by_cases h1 : r < pos
+    · simp [h1]
+    · simp [h1, hne])
+  rwa [List.map_id] at this
+
+theorem unskip_props {m pos : Nat} (hp : pos ≤ m) {rs : List Nat} (hr : ∀ x ∈ rs, x < m + 1) (hpos : pos ∉ rs)
+    (hn : rs.Nodup) : (∀ x ∈ rs.map (unskip pos), x < m) ∧ (rs.map (unskip pos)).Nodup := by
+  constructor
+  · intro x hx
+    simp only [List.mem_map] at hx
+    obtain ⟨r, hr', rfl⟩ := hx
+    have hne : r ≠ pos := fun e => hpos (e ▸ hr')
+    have := hr r hr'
+    unfold unskip; split <;> omega
+  · rw [List.nodup_map_iff_inj_on hn]
+    intro a ha b hb hab
+    have h1 : a ≠ pos := fun e => hpos (e ▸ ha)
+    have h2 : b ≠ pos := fun e => hpos (e ▸ hb)
+    unfold unskip at hab
+    split at hab <;> split at hab <;> omega
+
+theorem countP_le_one_of_single {cs : List Nat} (hn : cs.Nodup) (p : Nat → Bool) (c0 : Nat)
+    (h : ∀ c ∈ cs, p c = true → c = c0) : cs.countP p ≤ 1 := by
+  have h1 : cs.countP p ≤ cs.countP (· == c0) :=
+    List.countP_mono_left (fun c hc hp => by simpa using h c hc hp)
+  have h2 : cs.countP (· == c0) = cs.count c0 := rfl
+  have h3 := List.nodup_iff_count_le_one.mp hn c0
+  omega
+
+/-- Inserting a row with at most one nonzero (a zero row or a `±` unit row) does not change balancedness. -/
+theorem isBalanced_insertRow_sparse {M : Mat} {m n pos : Nat} (hwf : M.wf m n = true) (hp : pos ≤ m) (row : List Int)
+    (hlen : row.length = n) (htern : ∀ j, j < n → isTernaryEntry (row.getD j 0) = true)
+    (c0 : Nat) (hsparse : ∀ j, j < n → j ≠ c0 → row.getD j 0 = 0) :
+    isBalanced (m + 1) n (insertRow M pos row) = isBalanced m n M := by
+  have hl := length_of_wf hwf
+  have hw' : (insertRow M pos row).wf (m + 1) n = true := wf_insertRow hwf hlen
+  rw [Bool.eq_iff_iff]
+  constructor
+  · intro h
+    have := isBalanced_sub hw' h (skipIdx m pos) (List.range n) skipIdx_lt (by intro x hx; simpa using hx)
+      (skipIdx_nodup m pos) List.nodup_range
+    rwa [length_skipIdx, List.length_range, sub_skip_insertRow hwf hp] at this
+  · intro h
+    obtain ⟨ht, hh⟩ := (isBalanced_iff_nodup m n M).mp h
+    rw [isBalanced_iff_nodup]
+    refine ⟨?_, fun rs cs hr hc hnr hnc hlen' => ?_⟩
+    · rw [isTernary_iff_ent hw']
+      intro i hi j hj
+      rw [ent_insertRow M row (by omega)]
+      split
+      · exact (isTernary_iff_ent hwf).mp ht i (by omega) j hj
+      · split
+        · exact htern j hj
+        · exact (isTernary_iff_ent hwf).mp ht (i - 1) (by omega) j hj
+    · by_cases hpos : pos ∈ rs
+      · cases hv : isUnbalancedHoleL (insertRow M pos row) rs cs with
+        | false => rfl
+        | true =>
+          exfalso
+          simp only [isUnbalancedHoleL, twoPerLineL, Bool.and_eq_true, List.all_eq_true, beq_iff_eq] at hv
+          have h2 := hv.1.1 pos hpos
+          have h1 := countP_le_one_of_single hnc (fun c => ent (insertRow M pos row) pos c != 0) c0 (by
+            intro c hc' hne
+            by_contra hcc
+            rw [ent_insertRow M row (by omega)] at hne
+            simp only [Nat.lt_irrefl, if_false, if_true] at hne
+            rw [hsparse c (hc c hc') hcc] at hne
+            simp at hne)
+          omega
+      · rw [hole_insertRow_avoid hwf hp row rs cs hpos]
+        obtain ⟨h1, h2⟩ := unskip_props hp hr hpos hnr
+        exact hh _ cs h1 hc h2 hnc (by simpa using hlen')
+
+
+/-- a ternary list with `k` nonzeros has a sum of absolute value at most `k` and of the parity of `k` -/
+theorem ternary_sum_bounds (l : List Int) (ht : ∀ x ∈ l, x = 0 ∨ x = 1 ∨ x = -1) :
+    -(l.countP (· != 0) : Int) ≤ l.sum ∧ l.sum ≤ (l.countP (· != 0) : Int) ∧
+      (l.sum - (l.countP (· != 0) : Int)) % 2 = 0 := by
+  induction l with
+  | nil => simp
+  | cons x xs ih =>
+    obtain ⟨h1, h2, h3⟩ := ih (fun y hy => ht y (by simp [hy]))
+    rcases ht x (by simp) with rfl | rfl | rfl <;> simp [List.countP_cons] <;> omega
+
+theorem ternary_sum_two (l : List Int) (ht : ∀ x ∈ l, x = 0 ∨ x = 1 ∨ x = -1) (h2 : l.countP (· != 0) = 2) :
+    l.sum = -2 ∨ l.sum = 0 ∨ l.sum = 2 := by
+  obtain ⟨h1, h3, h4⟩ := ternary_sum_bounds l ht
+  rw [h2] at h1 h3 h4
+  omega
+
+theorem sum_mod4_congr (l : List Nat) (a b : Nat → Int)
+    (h : ∀ r ∈ l, (a r = b r ∨ a r = - b r) ∧ (b r = -2 ∨ b r = 0 ∨ b r = 2)) :
+    (l.map a).sum % 4 = (l.map b).sum % 4 := by
+  induction l with
+  | nil => rfl
+  | cons x xs ih =>
+    have ih' := ih (fun r hr => h r (by simp [hr]))
+    obtain ⟨h1, h2⟩ := h x (by simp)
+    simp only [List.map_cons, List.sum_cons]
+    rcases h1 with h1 | h1 <;> rcases h2 with h2 | h2 | h2 <;> omega
+
+/-- the hole predicate does not change when rows are multiplied by signs (ternary entries) -/
+theorem isUnbalancedHoleL_rowScale (M M' : Mat) (u : Nat → Int) (rs cs : List Nat)
+    (hu : ∀ r ∈ rs, u r = 1 ∨ u r = -1)
+    (ht : ∀ r ∈ rs, ∀ c ∈ cs, ent M r c = 0 ∨ ent M r c = 1 ∨ ent M r c = -1)
+    (h : ∀ r ∈ rs, ∀ c ∈ cs, ent M' r c = u r * ent M r c) :
+    isUnbalancedHoleL M' rs cs = isUnbalancedHoleL M rs cs := by
+  have hnz : ∀ r ∈ rs, ∀ c ∈ cs, (ent M' r c != 0) = (ent M r c != 0) := by
+    intro r hr c hc
+    rw [h r hr c hc]
+    rcases hu r hr with e | e <;> rw [e] <;> rw [Bool.eq_iff_iff] <;> simp
+  have htp : twoPerLineL M' rs cs = twoPerLineL M rs cs := by
+    unfold twoPerLineL
+    congr 1
+    · apply all_congr_mem
+      intro r hr
+      congr 1
+      apply List.countP_congr
+      intro c hc
+      simp only [hnz r hr c hc]
+    · apply all_congr_mem
+      intro c hc
+      congr 1
+      apply List.countP_congr
+      intro r hr
+      simp only [hnz r hr c hc]
+  unfold isUnbalancedHoleL
+  rw [htp]
+  cases h2 : twoPerLineL M rs cs with
+  | false => rfl
+  | true =>
+    simp only [Bool.true_and]
+    congr 1
+    unfold entrySumL
+    apply sum_mod4_congr
+    intro r hr
+    have hsum : (cs.map (fun c => ent M' r c)).sum = u r * (cs.map (fun c => ent M r c)).sum := by
+      rw [← List.sum_map_mul_left]
+      congr 1
+      apply List.map_congr_left
+      intro c hc
+      exact h r hr c hc
+    constructor
+    · rw [hsum]
+      rcases hu r hr with e | e <;> rw [e]
+      · left; ring
+      · right; ring
+    · apply ternary_sum_two
+      · intro x hx
+        simp only [List.mem_map] at hx
+        obtain ⟨c, hc, rfl⟩ := hx
+        exact ht r hr c hc
+      · simp only [twoPerLineL, Bool.and_eq_true, List.all_eq_true, beq_iff_eq] at h2
+        have := h2.1 r hr
+        rw [List.countP_map]
+        exact this
+
+/-- multiplying the rows of a well-formed matrix by signs keeps balancedness -/
+theorem isBalanced_rowScale_imp {M M' : Mat} {m n : Nat} (hwf : M.wf m n = true) (hwf' : M'.wf m n = true)
+    (u : Nat → Int) (hu : ∀ r, r < m → u r = 1 ∨ u r = -1)
+    (h : ∀ r, r < m → ∀ c, c < n → ent M' r c = u r * ent M r c) (hb : isBalanced m n M = true) :
+    isBalanced m n M' = true := by
+  obtain ⟨ht, hh⟩ := (isBalanced_iff_nodup m n M).mp hb
+  have hte := (isTernary_iff_ent hwf).mp ht
+  rw [isBalanced_iff_nodup]
+  refine ⟨?_, fun rs cs hr hc hnr hnc hl => ?_⟩
+  · rw [isTernary_iff_ent hwf']
+    intro i hi j hj
+    rw [h i hi j hj, isTernaryEntry_iff]
+    have := (isTernaryEntry_iff _).mp (hte i hi j hj)
+    rcases hu i hi with e | e <;> rw [e] <;> omega
+  · rw [isUnbalancedHoleL_rowScale M M' u rs cs (fun r hr' => hu r (hr r hr'))
+      (fun r hr' c hc' => (isTernaryEntry_iff _).mp (hte r (hr r hr') c (hc c hc')))
+      (fun r hr' c hc' => h r (hr r hr') c (hc c hc'))]
+    exact hh rs cs hr hc hnr hnc hl
+
+theorem isBalanced_rowScale {M M' : Mat} {m n : Nat} (hwf : M.wf m n = true) (hwf' : M'.wf m n = true)
+    (u : Nat → Int) (hu : ∀ r, r < m → u r = 1 ∨ u r = -1)
+    (h : ∀ r, r < m → ∀ c, c < n → ent M' r c = u r * ent M r c) :
+    isBalanced m n M' = isBalanced m n M := by
+  rw [Bool.eq_iff_iff]
+  constructor
+  · apply isBalanced_rowScale_imp hwf' hwf u hu
+    intro r hr c hc
+    rw [h r hr c hc, ← mul_assoc]
+    rcases hu r hr with e | e <;> rw [e] <;> ring
+  · exact isBalanced_rowScale_imp hwf hwf' u hu h
+
+theorem isBalanced_negRow {M : Mat} {m n : Nat} (hwf : M.wf m n = true) (i : Nat) :
+    isBalanced m n (negRow M i) = isBalanced m n M := by
+  apply isBalanced_rowScale hwf (wf_negRow hwf i) (fun r => if r = i then -1 else 1)
+  · intro r _; by_cases h : r = i <;> simp [h]
+  · intro r _ c _; rw [ent_negRow]; by_cases h : r = i <;> simp [h]
+
+theorem transpose_negCol {M : Mat} {m n : Nat} (hwf : M.wf m n = true) (j : Nat) :
+    transpose m n (negCol M j) = negRow (transpose m n M) j := by
+  apply mat_ext (wf_transpose _ _ _) (wf_negRow (wf_transpose m n M) j)
+  intro i hi k hk
+  rw [ent_transpose _ hi hk, ent_negCol, ent_negRow, ent_transpose _ hi hk]
+
+theorem isBalanced_negCol {M : Mat} {m n : Nat} (hwf : M.wf m n = true) (j : Nat) :
+    isBalanced m n (negCol M j) = isBalanced m n M := by
+  rw [← Cmr.Props.C17.isBalanced_transpose m n _ (wf_negCol hwf j), transpose_negCol hwf,
+    isBalanced_negRow (wf_transpose m n M), Cmr.Props.C17.isBalanced_transpose m n M hwf]
+
+
+theorem countP_split {α : Type} (l : List α) (p z : α → Bool) :
+    l.countP p = (l.filter z).countP p + (l.filter (fun a => !z a)).countP p := by
+  induction l with
+  | nil => rfl
+  | cons a l ih =>
+    cases hz : z a <;> cases hp : p a <;> simp [List.filter_cons, List.countP_cons, hz, hp, ih] <;> omega
+
+theorem sum_split (l : List Nat) (f : Nat → Int) (z : Nat → Bool) :
+    (l.map f).sum = ((l.filter z).map f).sum + ((l.filter (fun a => !z a)).map f).sum := by
+  induction l with
+  | nil => rfl
+  | cons a l ih =>
+    cases hz : z a <;> simp [List.filter_cons, hz, ih] <;> ring
+
+/-- Two equal rows `p`, `q` in a hole: removing them and the two columns of their nonzeros leaves a hole. -/
+theorem hole_remove_twin (N : Mat) (p q : Nat) (rs cs : List Nat)
+    (hpq : ∀ c ∈ cs, ent N p c = ent N q c)
+    (htern : ∀ c ∈ cs, ent N q c = 0 ∨ ent N q c = 1 ∨ ent N q c = -1)
+    (h : isUnbalancedHoleL N (p :: q :: rs) cs = true) :
+    isUnbalancedHoleL N rs (cs.filter (fun c => !(ent N q c != 0))) = true ∧
+      (cs.filter (fun c => !(ent N q c != 0))).length + 2 = cs.length := by
+  simp only [isUnbalancedHoleL, twoPerLineL, entrySumL, Bool.and_eq_true, List.all_eq_true, beq_iff_eq,
+    List.mem_cons, forall_eq_or_imp, List.map_cons, List.sum_cons, List.countP_cons] at h
+  obtain ⟨⟨⟨hrp, hrq, hrows⟩, hcols⟩, hsum⟩ := h
+  -- columns where the twin rows are nonzero vanish on the other rows
+  have hvan : ∀ c ∈ cs, (ent N q c != 0) = true → ∀ r ∈ rs, ent N r c = 0 := by
+    intro c hc hne r hr
+    have h1 := hcols c hc
+    have hne' : (ent N p c != 0) = true := by rw [hpq c hc]; exact hne
+    simp only [hne, hne', if_true] at h1
+    have h0 : List.countP (fun r => ent N r c != 0) rs = 0 := by omega
+    have := List.countP_eq_zero.mp h0 r hr
+    simpa using this
+  have hlen : (cs.filter (fun c => !(ent N q c != 0))).length + 2 = cs.length := by
+    have := List.length_eq_countP_add_countP (fun c => ent N q c != 0) (l := cs)
+    rw [hrq] at this
+    rw [← List.countP_eq_length_filter]
+    have e : List.countP (fun c => !(ent N q c != 0)) cs = List.countP (fun a => decide ¬(ent N q a != 0) = true) cs := by
+      apply List.countP_congr; intro c _; simp
+    omega
+  refine ⟨?_, hlen⟩
+  simp only [isUnbalancedHoleL, twoPerLineL, entrySumL, Bool.and_eq_true, List.all_eq_true, beq_iff_eq]
+  refine ⟨⟨?_, ?_⟩, ?_⟩
+  · intro r hr
+    have h1 := hrows r hr
+    rw [countP_split cs _ (fun c => ent N q c != 0)] at h1
+    have h0 : List.countP (fun c => ent N r c != 0) (cs.filter (fun c => ent N q c != 0)) = 0 := by
+      rw [List.countP_eq_zero]
+      intro c hc
+      rw [List.mem_filter] at hc
+      simp [hvan c hc.1 hc.2 r hr]
+    omega
+  · intro c hc
+    rw [List.mem_filter] at hc
+    have h1 := hcols c hc.1
+    have hz : (ent N q c != 0) = false := by simpa using hc.2
+    have hz' : (ent N p c != 0) = false := by rw [hpq c hc.1]; exact hz
+    simp only [hz, hz', Bool.false_eq_true, if_false, Nat.add_zero] at h1
+    exact h1
+  · have e1 : (cs.map (fun c => ent N p c)).sum = (cs.map (fun c => ent N q c)).sum := by
+      congr 1; apply List.map_congr_left; intro c hc; exact hpq c hc
+    have h2 := ternary_sum_two (cs.map (fun c => ent N q c))
+      (by intro x hx; simp only [List.mem_map] at hx; obtain ⟨c, hc, rfl⟩ := hx; exact htern c hc)
+      (by rw [List.countP_map]; exact hrq)
+    have e2 : (rs.map (fun r => (cs.map (fun c => ent N r c)).sum)).sum =
+        (rs.map (fun r => ((cs.filter (fun c => !(ent N q c != 0))).map (fun c => ent N r c)).sum)).sum := by
+      congr 1
+      apply List.map_congr_left
+      intro r hr
+      rw [sum_split cs _ (fun c => ent N q c != 0)]
+      have h0 : ((cs.filter (fun c => ent N q c != 0)).map (fun c => ent N r c)).sum = 0 := by
+        apply List.sum_eq_zero
+        intro x hx
+        simp only [List.mem_map, List.mem_filter] at hx
+        obtain ⟨c, hc, rfl⟩ := hx
+        exact hvan c hc.1 hc.2 r hr
+      rw [h0, zero_add]
+    rw [e1, e2] at hsum
+    omega
+
+
+/-- Inserting a copy of row `i` does not change balancedness. -/
+theorem isBalanced_insertRow_copy1 {M : Mat} {m n pos i : Nat} (hwf : M.wf m n = true) (hp : pos ≤ m) (hi : i < m)
+    (row : List Int) (hlen : row.length = n) (hrow : ∀ j, row.getD j 0 = ent M i j) :
+    isBalanced (m + 1) n (insertRow M pos row) = isBalanced m n M := by
+  have hl := length_of_wf hwf
+  have hw' : (insertRow M pos row).wf (m + 1) n = true := wf_insertRow hwf hlen
+  rw [Bool.eq_iff_iff]
+  constructor
+  · intro h
+    have := isBalanced_sub hw' h (skipIdx m pos) (List.range n) skipIdx_lt (by intro x hx; simpa using hx)
+      (skipIdx_nodup m pos) List.nodup_range
+    rwa [length_skipIdx, List.length_range, sub_skip_insertRow hwf hp] at this
+  · intro h
+    obtain ⟨ht, hh⟩ := (isBalanced_iff_nodup m n M).mp h
+    have hte := (isTernary_iff_ent hwf).mp ht
+    -- every row of the new matrix is a row of `M`
+    let f : Nat → Nat := fun r => if r = pos then i else unskip pos r
+    have hf : ∀ r c, ent (insertRow M pos row) r c = ent M (f r) c := by
+      intro r c
+      rw [ent_insertRow M row (by omega)]
+      simp only [f, unskip]
+      by_cases h1 : r < pos
+      · simp [h1, Nat.ne_of_lt h1]
+      · by_cases h2 : r = pos
+        · rw [if_neg h1, if_pos h2, if_pos h2]; exact hrow c
+        · simp [h1, h2]
+    have hflt : ∀ r, r < m + 1 → f r < m := by
+      intro r hr
+      simp only [f, unskip]
+      split
+      · exact hi
+      · split <;> omega
+    have hte' : ∀ r, r < m + 1 → ∀ c, c < n → isTernaryEntry (ent (insertRow M pos row) r c) = true := by
+      intro r hr c hc
+      rw [hf]; exact hte _ (hflt r hr) c hc
+    -- holes that avoid the new row
+    have havoid : ∀ rs cs : List Nat, (∀ x ∈ rs, x < m + 1) → (∀ x ∈ cs, x < n) → rs.Nodup → cs.Nodup →
+        rs.length = cs.length → pos ∉ rs → isUnbalancedHoleL (insertRow M pos row) rs cs = false := by
+      intro rs cs hr hc hnr hnc hlen' hpos
+      rw [hole_insertRow_avoid hwf hp row rs cs hpos]
+      obtain ⟨h1, h2⟩ := unskip_props hp hr hpos hnr
+      exact hh _ cs h1 hc h2 hnc (by simpa using hlen')
+    rw [isBalanced_iff_nodup]
+    refine ⟨(isTernary_iff_ent hw').mpr hte', fun rs cs hr hc hnr hnc hlen' => ?_⟩
+    by_cases hpos : pos ∈ rs
+    · -- the position of the original row `i` in the new matrix
+      let q : Nat := if i < pos then i else i + 1
+      have hqpos : q ≠ pos := by simp only [q]; split <;> omega
+      have hfq : f q = i := by
+        simp only [f, unskip, q]
+        by_cases h1 : i < pos
+        · simp [h1, Nat.ne_of_lt h1]
+        · simp [h1, show ¬ (i + 1 = pos) by omega, show ¬ (i + 1 < pos) by omega]
+      by_cases hq : q ∈ rs
+      · -- both copies: remove them
+        cases hv : isUnbalancedHoleL (insertRow M pos row) rs cs with
+        | false => rfl
+        | true =>
+          exfalso
+          have hperm : rs.Perm (pos :: q :: (rs.erase pos).erase q) := by
+            refine (List.perm_cons_erase hpos).trans (List.Perm.cons _ ?_)
+            exact List.perm_cons_erase ((List.mem_erase_of_ne hqpos).mpr hq)
+          rw [isUnbalancedHoleL_perm _ hperm (List.Perm.refl cs)] at hv
+          obtain ⟨h1, h2⟩ := hole_remove_twin _ pos q _ cs
+            (by intro c _; rw [hf, hf, hfq]; simp [f])
+            (by
+              intro c hc'
+              have hq' : q < m + 1 := hr q hq
+              exact (isTernaryEntry_iff _).mp (hte' q hq' c (hc c hc')))
+            hv
+          have hsub : ∀ x ∈ (rs.erase pos).erase q, x ∈ rs := fun x hx =>
+            List.mem_of_mem_erase (List.mem_of_mem_erase hx)
+          have hnd : ((rs.erase pos).erase q).Nodup := (hnr.erase pos).erase q
+          have hlen3 : ((rs.erase pos).erase q).length + 2 = rs.length := by
+            have := hperm.length_eq; simp at this; omega
+          have := havoid ((rs.erase pos).erase q) (cs.filter (fun c => !(ent (insertRow M pos row) q c != 0)))
+            (fun x hx => hr x (hsub x hx))
+            (fun x hx => hc x (List.mem_of_mem_filter hx)) hnd (hnc.filter _) (by omega)
+            (fun hmem => (List.Nodup.mem_erase_iff hnr).mp (List.mem_of_mem_erase hmem) |>.1 rfl)
+          rw [h1] at this
+          cases this
+      · -- only the copy: it stands for the original
+        rw [isUnbalancedHoleL_map M _ f id rs cs (fun r _ c _ => hf r c), List.map_id]
+        apply hh _ cs _ hc _ hnc (by simpa using hlen')
+        · intro x hx
+          simp only [List.mem_map] at hx
+          obtain ⟨r, hr', rfl⟩ := hx
+          exact hflt r (hr r hr')
+        · rw [List.nodup_map_iff_inj_on hnr]
+          intro a ha b hb hab
+          have hane : a ≠ q := fun e => hq (e ▸ ha)
+          have hbne : b ≠ q := fun e => hq (e ▸ hb)
+          simp only [f, unskip, q] at hab hane hbne
+          split at hab <;> split at hab <;> (try split at hab) <;> (try split at hab) <;>
+            (try split at hane) <;> (try split at hbne) <;> omega
+    · exact havoid rs cs hr hc hnr hnc hlen' hpos
+
+
+theorem isBalanced_rowIns {M : Mat} {m n : Nat} (hwf : M.wf m n = true) {s : Step} {pos : Nat}
+    (hs : s.rowInsOk m n pos) :
+    isBalanced (m + 1) n (insertRow M pos (s.newRow n M)) = isBalanced m n M := by
+  have hl := length_of_wf hwf
+  cases s <;> simp only [Step.rowInsOk] at hs
+  · -- ZR
+    obtain ⟨rfl, hp⟩ := hs
+    apply isBalanced_insertRow_sparse hwf hp _ (by simp [Step.newRow]) _ 0
+    · intro j hj _; simp [Step.newRow, List.getD_eq_getElem?_getD, List.getElem?_replicate, hj]
+    · intro j hj; simp [Step.newRow, List.getD_eq_getElem?_getD, List.getElem?_replicate, hj, isTernaryEntry]
+  · -- UR
+    rename_i p c sg
+    obtain ⟨rfl, hp, hc, hsg⟩ := hs
+    apply isBalanced_insertRow_sparse hwf hp _ (by simp [Step.newRow, length_unitVec]) _ c
+    · intro j hj hne; simp only [Step.newRow, getD_unitVec sg hj, hne, if_false]
+    · intro j hj; simp only [Step.newRow, getD_unitVec sg hj]
+      by_cases h : j = c
+      · rcases hsg with e | e <;> simp [h, e, isTernaryEntry]
+      · simp [h, isTernaryEntry]
+  · -- DR
+    rename_i p i sg
+    obtain ⟨rfl, hp, hi, hsg⟩ := hs
+    have hlen : ∀ t : Int, ((M.getD i []).map (t * ·)).length = n := fun t => by
+      rw [List.length_map]; exact getD_row_length hwf hi
+    have h1 := isBalanced_insertRow_copy1 (pos := p) hwf hp hi ((M.getD i []).map (1 * ·)) (hlen 1)
+      (fun j => by rw [getD_scaledRow, one_mul])
+    rw [← h1]
+    simp only [Step.newRow]
+    apply isBalanced_rowScale (wf_insertRow hwf (hlen 1)) (wf_insertRow hwf (hlen sg)) (fun r => if r = p then sg else 1)
+    · intro r _; by_cases h : r = p <;> simp [h, hsg]
+    · intro r hr c hc
+      rw [ent_insertRow M _ (by omega), ent_insertRow M _ (by omega)]
+      by_cases h1 : r < p
+      · simp [h1, Nat.ne_of_lt h1]
+      · by_cases h2 : r = p
+        · rw [if_neg h1, if_pos h2, if_neg h1, if_pos h2, if_pos h2, getD_scaledRow, getD_scaledRow, one_mul]
+        · simp [h1, h2]
+
+theorem isBalanced_colIns {M : Mat} {m n : Nat} (hwf : M.wf m n = true) {s : Step} {pos : Nat}
+    (hs : s.colInsOk m n pos) :
+    isBalanced m (n + 1) (insertCol M pos (s.newCol M)) = isBalanced m n M := by
+  obtain ⟨h2, _, _⟩ := colIns_toRowIns hwf hs
+  rw [← Cmr.Props.C17.isBalanced_transpose m (n + 1) _ (wf_insertCol hwf), transpose_colIns hwf hs,
+    isBalanced_rowIns (wf_transpose m n M) h2, Cmr.Props.C17.isBalanced_transpose m n M hwf]
+
+
+/-! ### series-parallel matrices -/
+
+theorem isSPgreedy_iff_SPE {t : Bool} {m n : Nat} {M : Mat} :
+    isSPgreedy t m n M = true ↔ SPE t (ent M) (List.range m) (List.range n) := by
+  rw [Cmr.Props.C08.isSPgreedy_iff, Cmr.Props.C08.isSP_iff_SPE]
+
+theorem SPE.flip {t : Bool} {E : Nat → Nat → Int} {R C : List Nat} (h : SPE t E R C) : SPE t (flipE E) C R := by
+  induction h with
+  | nil => exact SPE.nil
+  | row hr _ ih => exact SPE.col (E := flipE E) hr ih
+  | col hc _ ih => exact SPE.row hc ih
+
+theorem sgn_one (t : Bool) : Sgn t 1 := Or.inl rfl
+
+/-- `SPE` only reads the entries on the index sets -/
+theorem SPE.congr {t : Bool} {E E' : Nat → Nat → Int} {R C : List Nat} (h : SPE t E R C) (hR : R.Nodup) (hC : C.Nodup)
+    (he : ∀ x ∈ R, ∀ y ∈ C, E' x y = E x y) : SPE t E' R C :=
+  h.embed (f := id) (g := id) (s := fun _ => 1) (u := fun _ => 1) hR hC
+    { mapR := fun _ h => h, mapC := fun _ h => h, injR := fun _ _ _ _ h => h, injC := fun _ _ _ _ h => h
+      sgnR := fun _ => sgn_one t, sgnC := fun _ => sgn_one t, ent := fun x hx y hy => by simp [he x hx y hy] }
+
+theorem isSP_transpose_imp {t : Bool} {m n : Nat} {M : Mat} (h : isSPgreedy t m n M = true) :
+    isSPgreedy t n m (transpose m n M) = true := by
+  rw [isSPgreedy_iff_SPE] at h ⊢
+  apply h.flip.congr List.nodup_range List.nodup_range
+  intro x hx y hy
+  rw [ent_transpose _ (List.mem_range.mp hx) (List.mem_range.mp hy)]
+  rfl
+
+theorem isSP_transpose {t : Bool} {m n : Nat} {M : Mat} (hwf : M.wf m n = true) :
+    isSPgreedy t n m (transpose m n M) = isSPgreedy t m n M := by
+  rw [Bool.eq_iff_iff]
+  constructor
+  · intro h
+    have := isSP_transpose_imp h
+    rwa [transpose_transpose hwf] at this
+  · exact isSP_transpose_imp
+
+/-- series-parallelness is inherited by submatrices along duplicate-free in-range index lists -/
+theorem isSP_sub {t : Bool} {m n : Nat} {M : Mat} (h : isSPgreedy t m n M = true) (rows cols : List Nat)
+    (hr : ∀ x ∈ rows, x < m) (hc : ∀ x ∈ cols, x < n) (hnr : rows.Nodup) (hnc : cols.Nodup) :
+    isSPgreedy t rows.length cols.length (sub M rows cols) = true := by
+  rw [isSPgreedy_iff_SPE] at h ⊢
+  apply h.embed (f := fun i => rows.getD i 0) (g := fun j => cols.getD j 0) (s := fun _ => 1) (u := fun _ => 1)
+    List.nodup_range List.nodup_range
+  have getD_mem : ∀ (l : List Nat) (i : Nat), i < l.length → l.getD i 0 ∈ l := by
+    intro l i hi
+    rw [List.getD_eq_getElem?_getD, List.getElem?_eq_getElem hi, Option.getD_some]
+    exact List.getElem_mem hi
+  have getD_inj : ∀ (l : List Nat), l.Nodup → ∀ i, i < l.length → ∀ j, j < l.length → l.getD i 0 = l.getD j 0 → i = j := by
+    intro l hl i hi j hj hij
+    simp only [List.getD_eq_getElem?_getD, List.getElem?_eq_getElem hi, List.getElem?_eq_getElem hj,
+      Option.getD_some] at hij
+    exact (List.Nodup.getElem_inj_iff hl).mp hij
+  exact
+    { mapR := fun x hx => List.mem_range.mpr (hr _ (getD_mem rows x (List.mem_range.mp hx)))
+      mapC := fun y hy => List.mem_range.mpr (hc _ (getD_mem cols y (List.mem_range.mp hy)))
+      injR := fun x hx x' hx' e => getD_inj rows hnr x (List.mem_range.mp hx) x' (List.mem_range.mp hx') e
+      injC := fun y hy y' hy' e => getD_inj cols hnc y (List.mem_range.mp hy) y' (List.mem_range.mp hy') e
+      sgnR := fun _ => sgn_one t, sgnC := fun _ => sgn_one t
+      ent := fun x hx y hy => by
+        rw [ent_sub_getD M rows cols (List.mem_range.mp hx) (List.mem_range.mp hy)]; simp }
+
+theorem isSP_perm {t : Bool} {M : Mat} {m n : Nat} (hwf : M.wf m n = true) {rows cols : List Nat}
+    (hr : isPermOf rows m = true) (hc : isPermOf cols n = true) :
+    isSPgreedy t m n (sub M rows cols) = isSPgreedy t m n M := by
+  obtain ⟨hl1, hlt1, hn1⟩ := (isPermOf_iff _ _).mp hr
+  obtain ⟨hl2, hlt2, hn2⟩ := (isPermOf_iff _ _).mp hc
+  obtain ⟨il1, ilt1, in1⟩ := (isPermOf_iff _ _).mp (isPermOf_invPerm hr)
+  obtain ⟨il2, ilt2, in2⟩ := (isPermOf_iff _ _).mp (isPermOf_invPerm hc)
+  rw [Bool.eq_iff_iff]
+  constructor
+  · intro h
+    have := isSP_sub h (invPerm rows m) (invPerm cols n) ilt1 ilt2 in1 in2
+    rwa [il1, il2, sub_invPerm hwf hr hc] at this
+  · intro h
+    have := isSP_sub h rows cols hlt1 hlt2 hn1 hn2
+    rwa [hl1, hl2] at this
+
+/-- scaling rows and columns by signs keeps ternary series-parallelness -/
+theorem isSP_scale_imp {m n : Nat} {M M' : Mat} (s u : Nat → Int) (hs : ∀ r, s r = 1 ∨ s r = -1)
+    (hu : ∀ c, u c = 1 ∨ u c = -1) (he : ∀ r, r < m → ∀ c, c < n → ent M' r c = s r * u c * ent M r c)
+    (h : isSPgreedy true m n M = true) : isSPgreedy true m n M' = true := by
+  rw [isSPgreedy_iff_SPE] at h ⊢
+  apply h.embed (f := id) (g := id) (s := s) (u := u) List.nodup_range List.nodup_range
+  exact
+    { mapR := fun _ h => h, mapC := fun _ h => h, injR := fun _ _ _ _ h => h, injC := fun _ _ _ _ h => h
+      sgnR := fun x => by rcases hs x with e | e; exact Or.inl e; exact Or.inr ⟨rfl, e⟩
+      sgnC := fun x => by rcases hu x with e | e; exact Or.inl e; exact Or.inr ⟨rfl, e⟩
+      ent := fun x hx y hy => he x (List.mem_range.mp hx) y (List.mem_range.mp hy) }
+
+theorem isSP_scale {m n : Nat} {M M' : Mat} (s u : Nat → Int) (hs : ∀ r, s r = 1 ∨ s r = -1)
+    (hu : ∀ c, u c = 1 ∨ u c = -1) (he : ∀ r, r < m → ∀ c, c < n → ent M' r c = s r * u c * ent M r c) :
+    isSPgreedy true m n M' = isSPgreedy true m n M := by
+  rw [Bool.eq_iff_iff]
+  constructor
+  · apply isSP_scale_imp s u hs hu
+    intro r hr c hc
+    rw [he r hr c hc]
+    rcases hs r with e1 | e1 <;> rcases hu c with e2 | e2 <;> rw [e1, e2] <;> ring
+  · exact isSP_scale_imp s u hs hu he
+
+theorem isSP_negRow {m n : Nat} (M : Mat) (i : Nat) : isSPgreedy true m n (negRow M i) = isSPgreedy true m n M := by
+  apply isSP_scale (fun r => if r = i then -1 else 1) (fun _ => 1)
+  · intro r; by_cases h : r = i <;> simp [h]
+  · intro _; exact Or.inl rfl
+  · intro r _ c _; rw [ent_negRow]; by_cases h : r = i <;> simp [h]
+
+theorem isSP_negCol {m n : Nat} (M : Mat) (j : Nat) : isSPgreedy true m n (negCol M j) = isSPgreedy true m n M := by
+  apply isSP_scale (fun _ => 1) (fun c => if c = j then -1 else 1)
+  · intro _; exact Or.inl rfl
+  · intro c; by_cases h : c = j <;> simp [h]
+  · intro r _ c _; rw [ent_negCol]; by_cases h : c = j <;> simp [h]
+
+
+/-- inserting a removable row keeps series-parallelness -/
+theorem SPE_insertRow {t : Bool} {M : Mat} {m n pos : Nat} (hwf : M.wf m n = true) (hp : pos ≤ m) (row : List Int)
+    (h : SPE t (ent M) (List.range m) (List.range n))
+    (hline : LineRem t (ent (insertRow M pos row)) (List.range (m + 1)) (List.range n) pos) :
+    SPE t (ent (insertRow M pos row)) (List.range (m + 1)) (List.range n) := by
+  have hl := length_of_wf hwf
+  refine SPE.row hline ?_
+  apply h.embed (f := unskip pos) (g := id) (s := fun _ => 1) (u := fun _ => 1)
+    (List.nodup_range.erase pos) List.nodup_range
+  have hmem : ∀ x, x ∈ (List.range (m + 1)).erase pos → x ≠ pos ∧ x < m + 1 := by
+    intro x hx
+    have := (List.Nodup.mem_erase_iff List.nodup_range).mp hx
+    exact ⟨this.1, List.mem_range.mp this.2⟩
+  exact
+    { mapR := fun x hx => by
+        obtain ⟨h1, h2⟩ := hmem x hx
+        rw [List.mem_range]; unfold unskip; split <;> omega
+      mapC := fun _ h => h
+      injR := fun x hx x' hx' e => by
+        obtain ⟨h1, h2⟩ := hmem x hx
+        obtain ⟨h3, h4⟩ := hmem x' hx'
+        unfold unskip at e
+        split at e <;> split at e <;> omega
+      injC := fun _ _ _ _ h => h
+      sgnR := fun _ => sgn_one t, sgnC := fun _ => sgn_one t
+      ent := fun x hx y hy => by
+        obtain ⟨h1, h2⟩ := hmem x hx
+        rw [ent_insertRow M row (by omega)]
+        unfold unskip
+        by_cases h3 : x < pos
+        · simp [h3]
+        · simp [h3, h1] }
+
+theorem isSP_rowIns {t : Bool} {M : Mat} {m n : Nat} (hwf : M.wf m n = true) {s : Step} {pos : Nat}
+    (hs : s.rowInsOk m n pos) (hsg : t = true ∨ s.unitSign = true) :
+    isSPgreedy t (m + 1) n (insertRow M pos (s.newRow n M)) = isSPgreedy t m n M := by
+  have hl := length_of_wf hwf
+  have hp : pos ≤ m := by cases s <;> simp only [Step.rowInsOk] at hs <;> first | exact hs.2 | exact hs.2.1
+  rw [Bool.eq_iff_iff]
+  constructor
+  · intro h
+    have := isSP_sub h (skipIdx m pos) (List.range n) skipIdx_lt (by intro x hx; simpa using hx)
+      (skipIdx_nodup m pos) List.nodup_range
+    rwa [length_skipIdx, List.length_range, sub_skip_insertRow hwf hp] at this
+  · intro h
+    rw [isSPgreedy_iff_SPE] at h ⊢
+    apply SPE_insertRow hwf hp _ h
+    refine ⟨List.mem_range.mpr (by omega), ?_⟩
+    have hrow : ∀ c, ent (insertRow M pos (s.newRow n M)) pos c = (s.newRow n M).getD c 0 := by
+      intro c; rw [ent_insertRow M _ (by omega)]; simp
+    cases s <;> simp only [Step.rowInsOk] at hs
+    · -- ZR
+      left
+      intro c hc
+      rw [hrow]
+      simp [Step.newRow, List.getD_eq_getElem?_getD, List.getElem?_replicate, List.mem_range.mp hc]
+    · -- UR
+      rename_i p c0 sg
+      obtain ⟨rfl, _, hc0, hsg'⟩ := hs
+      right; left
+      refine ⟨c0, List.mem_range.mpr hc0, ?_, ?_⟩
+      · rw [hrow]; simp only [Step.newRow, getD_unitVec sg hc0, if_true]
+        rcases hsg' with e | e <;> rw [e] <;> decide
+      · intro c' hc' hne
+        rw [hrow] at hne
+        simp only [Step.newRow, getD_unitVec sg (List.mem_range.mp hc')] at hne
+        by_contra hcc
+        simp [hcc] at hne
+    · -- DR
+      rename_i p i sg
+      obtain ⟨rfl, _, hi, hsg'⟩ := hs
+      right; right
+      refine ⟨if i < p then i else i + 1, List.mem_range.mpr (by split <;> omega), by split <;> omega, ?_⟩
+      have hq : ∀ c, ent (insertRow M p (Step.newRow n M (Step.DR p i sg))) (if i < p then i else i + 1) c = ent M i c := by
+        intro c
+        rw [ent_insertRow M _ (by omega)]
+        by_cases h1 : i < p
+        · simp [h1]
+        · simp [h1, show ¬ (i + 1 < p) by omega, show ¬ (i + 1 = p) by omega]
+      have hpc : ∀ c, ent (insertRow M p (Step.newRow n M (Step.DR p i sg))) p c = sg * ent M i c := by
+        intro c; rw [hrow]; simp only [Step.newRow]; exact getD_scaledRow M i sg c
+      rcases hsg' with e | e
+      · left; intro c _; rw [hpc, hq, e, one_mul]
+      · right
+        refine ⟨?_, fun c _ => by rw [hpc, hq, e]; ring⟩
+        rcases hsg with ht | h1
+        · exact ht
+        · simp only [Step.unitSign, beq_iff_eq] at h1; omega
+
+theorem isSP_colIns {t : Bool} {M : Mat} {m n : Nat} (hwf : M.wf m n = true) {s : Step} {pos : Nat}
+    (hs : s.colInsOk m n pos) (hsg : t = true ∨ s.unitSign = true) :
+    isSPgreedy t m (n + 1) (insertCol M pos (s.newCol M)) = isSPgreedy t m n M := by
+  obtain ⟨h2, h3, _⟩ := colIns_toRowIns hwf hs
+  rw [← isSP_transpose (wf_insertCol hwf), transpose_colIns hwf hs,
+    isSP_rowIns (wf_transpose m n M) h2 (by rw [h3]; exact hsg), isSP_transpose hwf]
+
+/-- the class of the series-parallel recognizer with the given `ternary` flag -/
+def spCls (t : Bool) : Cls := if t then .spt else .spb
+
+
+/-! ### pivots preserve total unimodularity -/
+
+/-- scaling row `i₀` by `ε` and subtracting multiples of it from the other rows multiplies the determinant by `ε` -/
+theorem det_rowPivot {ι : Type*} [Fintype ι] [DecidableEq ι] (X : Matrix ι ι ℤ) (i₀ : ι) (ε : ℤ) (w : ι → ℤ) :
+    (Matrix.of fun i j => if i = i₀ then ε * X i₀ j else X i j - ε * w i * X i₀ j).det = ε * X.det := by
+  let u : ι → ℤ := fun i => if i = i₀ then ε - 1 else -(ε * w i)
+  have hU : (1 + replicateCol Unit u * replicateRow Unit (Pi.single i₀ (1 : ℤ))).det = ε := by
+    rw [det_one_add_replicateCol_mul_replicateRow]
+    simp [u]
+  have hmul : (Matrix.of fun i j => if i = i₀ then ε * X i₀ j else X i j - ε * w i * X i₀ j) =
+      (1 + replicateCol Unit u * replicateRow Unit (Pi.single i₀ (1 : ℤ))) * X := by
+    ext i j
+    rw [Matrix.add_mul, Matrix.one_mul, Matrix.mul_assoc]
+    simp only [of_apply, Matrix.add_apply, Matrix.mul_apply, replicateCol_apply, replicateRow_apply, Finset.univ_unique,
+      Finset.sum_singleton, Pi.single_apply, ite_mul, one_mul, zero_mul, Finset.sum_ite_eq', Finset.mem_univ, if_true]
+    by_cases h : i = i₀
+    · subst h; simp only [u, if_true]; ring
+    · simp only [u, h, if_false]; ring
+  rw [hmul, det_mul, hU]
+
+variable {m : ℕ} {γ : Type*}
+
+/-- the row operation of a pivot on `(r, c)`: afterwards column `c` is the unit vector `e_r` -/
+def rowPivot (G : Matrix (Fin m) γ ℤ) (r : Fin m) (c : γ) (ε : ℤ) : Matrix (Fin m) γ ℤ :=
+  Matrix.of fun i j => if i = r then ε * G r j else G i j - ε * G i c * G r j
+
+theorem det_rowPivot_submatrix (G : Matrix (Fin m) γ ℤ) (r : Fin m) (c : γ) (ε : ℤ)
+    {ι : Type*} [Fintype ι] [DecidableEq ι] (f : ι → Fin m) (hf : f.Injective) (g : ι → γ) (i₀ : ι) (hi₀ : f i₀ = r) :
+    ((rowPivot G r c ε).submatrix f g).det = ε * (G.submatrix f g).det := by
+  rw [← det_rowPivot (G.submatrix f g) i₀ ε (fun i => G (f i) c)]
+  congr 1
+  ext i j
+  simp only [rowPivot, submatrix_apply, of_apply]
+  by_cases h : i = i₀
+  · subst h; simp [hi₀]
+  · have : f i ≠ r := fun e => h (hf (e.trans hi₀.symm))
+    simp [h, this, hi₀]
+
+theorem rowPivot_isTotallyUnimodular [DecidableEq γ] (G : Matrix (Fin m) γ ℤ) (hG : G.IsTotallyUnimodular) (r : Fin m) (c : γ)
+    (ε : ℤ) (hε : ε = 1 ∨ ε = -1) (hpiv : G r c = ε) : (rowPivot G r c ε).IsTotallyUnimodular := by
+  have hεε : ε * ε = 1 := by rcases hε with e | e <;> rw [e] <;> norm_num
+  have hεr : ε ∈ Set.range (SignType.cast : SignType → ℤ) := signRange_of_pm1 hε
+  intro k f g hf hg
+  by_cases h : ∃ i₀, f i₀ = r
+  · obtain ⟨i₀, hi₀⟩ := h
+    rw [det_rowPivot_submatrix G r c ε f hf g i₀ hi₀]
+    exact signRange_mul hεr (hG k f g hf hg)
+  · simp only [not_exists] at h
+    by_cases h2 : ∃ j₀, g j₀ = c
+    · obtain ⟨j₀, hj₀⟩ := h2
+      rw [Matrix.det_eq_zero_of_column_eq_zero j₀]
+      · exact ⟨0, by simp⟩
+      · intro i
+        simp only [rowPivot, submatrix_apply, of_apply, h i, if_false, hj₀, hpiv]
+        rw [mul_assoc, mul_comm (G (f i) c), ← mul_assoc, hεε]; ring
+    · simp only [not_exists] at h2
+      -- border the submatrix with row `r` and column `c`
+      let f' : Unit ⊕ Fin k → Fin m := Sum.elim (fun _ => r) f
+      let g' : Unit ⊕ Fin k → γ := Sum.elim (fun _ => c) g
+      have hf' : f'.Injective := by
+        intro a b hab
+        rcases a with a | a <;> rcases b with b | b
+        · rfl
+        · exact absurd hab.symm (h b)
+        · exact absurd hab (h a)
+        · exact congrArg Sum.inr (hf hab)
+      have h1 := det_rowPivot_submatrix G r c ε f' hf' g' (Sum.inl ()) rfl
+      have h3 : (rowPivot G r c ε).submatrix f' g' =
+          fromBlocks (1 : Matrix Unit Unit ℤ) (Matrix.of fun _ j => rowPivot G r c ε r (g j)) 0
+            ((rowPivot G r c ε).submatrix f g) := by
+        ext a b
+        rcases a with a | a <;> rcases b with b | b
+        · simp [f', g', rowPivot, hpiv, hεε]
+        · simp [f', g']
+        · simp only [f', g', Sum.elim_inl, Sum.elim_inr, submatrix_apply, fromBlocks_apply₂₁, Matrix.zero_apply, rowPivot,
+            of_apply, h a, if_false, hpiv]
+          rw [mul_assoc, mul_comm (G (f a) c), ← mul_assoc, hεε]; ring
+        · simp [f', g']
+      rw [h3, det_fromBlocks_zero₂₁, det_one, one_mul] at h1
+      rw [h1]
+      exact signRange_mul hεr ((isTotallyUnimodular_iff_fintype G).mp hG _ f' g')
+
+/-- **The pivot (in the library's sign convention) of a totally unimodular matrix on a `±1` entry is totally
+unimodular.** -/
+theorem pivot_isTotallyUnimodular {n : ℕ} (A : Matrix (Fin m) (Fin n) ℤ) (hA : A.IsTotallyUnimodular)
+    (r : Fin m) (c : Fin n) (ε : ℤ) (hε : ε = 1 ∨ ε = -1) (hpiv : A r c = ε) :
+    (Matrix.of fun i j => if i = r then (if j = c then -ε else ε * A r j)
+      else if j = c then ε * A i c else A i j - ε * A i c * A r j).IsTotallyUnimodular := by
+  have hεε : ε * ε = 1 := by rcases hε with e | e <;> rw [e] <;> norm_num
+  -- `[A | e_r]`
+  let G : Matrix (Fin m) (Fin n ⊕ Unit) ℤ := (fromCols A (1 : Matrix (Fin m) (Fin m) ℤ)).submatrix id (Sum.map id (fun _ => r))
+  have hG : G.IsTotallyUnimodular := (hA.fromCols_one).submatrix _ _
+  have hG' := rowPivot_isTotallyUnimodular G hG r (Sum.inl c) ε hε (by simp [G, hpiv])
+  have hT := mul_cols_isTotallyUnimodular _ (fun j : Fin n => if j = c then (-1 : ℤ) else 1)
+    (fun j => by by_cases h : j = c <;> simp [h])
+    (hG'.submatrix id (fun j : Fin n => if j = c then Sum.inr () else Sum.inl j))
+  convert hT using 1
+  ext i j
+  by_cases h1 : i = r <;> by_cases h2 : j = c
+  · subst h1; subst h2; simp [rowPivot, G]
+  · subst h1; simp [rowPivot, G, h2]
+  · subst h2; simp [rowPivot, G, h1, Matrix.one_apply]
+  · simp [rowPivot, G, h1, h2]
+
+theorem mod3_of_ternary {x : Int} (h : x = 0 ∨ x = 1 ∨ x = -1) : mod3 x = x := by
+  rcases h with rfl | rfl | rfl <;> decide
+
+theorem pivotOk3_iff {m n : Nat} {M : Mat} {r c : Nat} :
+    pivotOk3 m n M r c = true ↔ r < m ∧ c < n ∧ mod3 (ent M r c) ≠ 0 := by
+  simp [pivotOk3, and_assoc]
+
+/-- **A GF(3) pivot of a totally unimodular matrix is totally unimodular** (and equals the rational pivot). -/
+theorem isTU_pivot3 {m n : Nat} {M : Mat} (hTU : isTU m n M = true) {r c : Nat} (hok : pivotOk3 m n M r c = true) :
+    isTU m n (pivot3 m n M r c) = true := by
+  obtain ⟨hr, hc, hp⟩ := pivotOk3_iff.mp hok
+  have hε : ent M r c = 1 ∨ ent M r c = -1 := by
+    rcases (isTernaryEntry_iff _).mp (isTU_entry M hTU hr hc) with e | e | e
+    · rw [e] at hp; exact absurd rfl hp
+    · exact Or.inl e
+    · exact Or.inr e
+  have hA := (isTU_iff m n M).mp hTU
+  have hA' := pivot_isTotallyUnimodular (toMx m n M) hA ⟨r, hr⟩ ⟨c, hc⟩ (ent M r c) hε rfl
+  rw [isTU_iff]
+  convert hA' using 1
+  ext i j
+  have hraw : pivotRaw M r c i j = (Matrix.of fun (i : Fin m) (j : Fin n) =>
+      if i = (⟨r, hr⟩ : Fin m) then (if j = (⟨c, hc⟩ : Fin n) then -(ent M r c) else ent M r c * toMx m n M ⟨r, hr⟩ j)
+      else if j = (⟨c, hc⟩ : Fin n) then ent M r c * toMx m n M i ⟨c, hc⟩
+      else toMx m n M i j - ent M r c * toMx m n M i ⟨c, hc⟩ * toMx m n M ⟨r, hr⟩ j) i j := by
+    simp only [pivotRaw, toMx, of_apply, Fin.ext_iff, beq_iff_eq]
+  have hrange := hA'.apply i j
+  rw [← hraw] at hrange ⊢
+  simp only [toMx, pivot3, ent_ofFn _ i.isLt j.isLt]
+  apply mod3_of_ternary
+  obtain ⟨s, hs⟩ := hrange
+  rw [← hs]
+  cases s <;> simp
+
+/-- for a ternary matrix the verdict is the same before and after a GF(3) pivot -/
+theorem isTU_pivot3_eq {m n : Nat} {M : Mat} (hwf : M.wf m n = true) (ht : isTernary M = true) {r c : Nat}
+    (hok : pivotOk3 m n M r c = true) : isTU m n (pivot3 m n M r c) = isTU m n M := by
+  obtain ⟨hr, hc, hp⟩ := pivotOk3_iff.mp hok
+  have hp0 : ent M r c ≠ 0 := by intro e; rw [e] at hp; exact hp rfl
+  rw [Bool.eq_iff_iff]
+  refine ⟨fun h => ?_, fun h => isTU_pivot3 h hok⟩
+  have hok' : pivotOk3 m n (pivot3 m n M r c) r c = true := by
+    rw [pivotOk3_iff]
+    refine ⟨hr, hc, ?_⟩
+    rw [pivot3, ent_ofFn _ hr hc]
+    simp only [pivotRaw, beq_self_eq_true, if_true]
+    rcases ent_ternary hwf ht hr hc with e | e | e
+    · exact absurd e hp0
+    · rw [e]; decide
+    · rw [e]; decide
+  have h2 := isTU_pivot3 h hok'
+  rw [Cmr.Props.C13.pivot3_twice m n M hwf ht r c hr hc hp0] at h2
+  rw [← isTU_negCol m n M c, ← isTU_negRow m n (negCol M c) r, ← h2]
+  apply isTU_congr
+  intro i hi j hj
+  rw [ent_ofFn _ hi hj, ent_negRow, ent_negCol]
+  by_cases h1 : i = r <;> by_cases h2 : j = c <;> simp [h1, h2]
+
+/-! ### ternarity is preserved by every step -/
+
+theorem isTernary_sub {M : Mat} {m n : Nat} (hwf : M.wf m n = true) (ht : isTernary M = true) (rs cs : List Nat)
+    (hr : ∀ x ∈ rs, x < m) (hc : ∀ x ∈ cs, x < n) : isTernary (sub M rs cs) = true := by
+  rw [isTernary_iff_ent (wf_sub M rs cs)]
+  intro i hi j hj
+  rw [ent_sub M rs cs hi hj]
+  exact (isTernary_iff_ent hwf).mp ht _ (hr _ (List.getElem_mem hi)) _ (hc _ (List.getElem_mem hj))
+
+theorem isTernaryEntry_neg {x : Int} (h : isTernaryEntry x = true) : isTernaryEntry (-x) = true := by
+  rw [isTernaryEntry_iff] at h ⊢; omega
+
+theorem isTernaryEntry_pm1_mul {s x : Int} (hs : s = 1 ∨ s = -1) (h : isTernaryEntry x = true) :
+    isTernaryEntry (s * x) = true := by
+  rw [isTernaryEntry_iff] at h ⊢
+  rcases hs with e | e <;> rw [e] <;> omega
+
+theorem Step.apply_ternary {m n : Nat} {M : Mat} {s : Step} {m' n' : Nat} {M' : Mat}
+    (h : s.apply m n M = some (m', n', M')) (hwf : M.wf m n = true) (ht : isTernary M = true) :
+    isTernary M' = true := by
+  have hte := (isTernary_iff_ent hwf).mp ht
+  have hwf' := Step.apply_wf h hwf
+  have hl := length_of_wf hwf
+  cases s with
+  | T =>
+    simp only [Step.apply, Option.some.injEq, Prod.mk.injEq] at h
+    obtain ⟨rfl, rfl, rfl⟩ := h
+    rw [isTernary_transpose hwf]; exact ht
+  | P rows cols =>
+    obtain ⟨hr, hc, rfl, rfl, rfl⟩ := apply_P_iff.mp h
+    exact isTernary_sub hwf ht rows cols ((isPermOf_iff _ _).mp hr).2.1 ((isPermOf_iff _ _).mp hc).2.1
+  | S rows cols =>
+    obtain ⟨hr, hc, _, _, rfl, rfl, rfl⟩ := apply_S_iff.mp h
+    exact isTernary_sub hwf ht rows cols hr hc
+  | V2 r c =>
+    simp only [Step.apply] at h
+    split at h
+    · simp only [Option.some.injEq, Prod.mk.injEq] at h; obtain ⟨rfl, rfl, rfl⟩ := h
+      exact isTernary_ofFn (fun i _ j _ => by rcases mod2_cases' (pivotRaw M r c i j) with e | e <;> simp [e])
+    · cases h
+  | V3 r c =>
+    simp only [Step.apply] at h
+    split at h
+    · simp only [Option.some.injEq, Prod.mk.injEq] at h; obtain ⟨rfl, rfl, rfl⟩ := h
+      exact isTernary_ofFn (fun i _ j _ => mod3_cases' _)
+    · cases h
+  | NR i =>
+    obtain ⟨_, rfl, rfl, rfl⟩ := apply_NR_iff.mp h
+    rw [isTernary_iff_ent hwf']
+    intro a ha b hb
+    rw [ent_negRow]; split
+    · exact isTernaryEntry_neg (hte a ha b hb)
+    · exact hte a ha b hb
+  | NC j =>
+    obtain ⟨_, rfl, rfl, rfl⟩ := apply_NC_iff.mp h
+    rw [isTernary_iff_ent hwf']
+    intro a ha b hb
+    rw [ent_negCol]; split
+    · exact isTernaryEntry_neg (hte a ha b hb)
+    · exact hte a ha b hb
+  | ZR pos =>
+    obtain ⟨p, hs, rfl, rfl, rfl⟩ := apply_rowIns rfl h
+    obtain ⟨rfl, hp⟩ := hs
+    rw [isTernary_iff_ent hwf']
+    intro a ha b hb
+    rw [ent_insertRow M _ (by omega)]
+    split
+    · exact hte a (by omega) b hb
+    · split
+      · simp [Step.newRow, List.getD_eq_getElem?_getD, List.getElem?_replicate, hb, isTernaryEntry]
+      · exact hte (a - 1) (by omega) b hb
+  | UR pos j sg =>
+    obtain ⟨p, hs, rfl, rfl, rfl⟩ := apply_rowIns rfl h
+    obtain ⟨rfl, hp, hj, hsg⟩ := hs
+    rw [isTernary_iff_ent hwf']
+    intro a ha b hb
+    rw [ent_insertRow M _ (by omega)]
+    split
+    · exact hte a (by omega) b hb
+    · split
+      · simp only [Step.newRow, getD_unitVec sg hb]
+        split
+        · rw [isTernaryEntry_iff]; omega
+        · rfl
+      · exact hte (a - 1) (by omega) b hb
+  | DR pos i sg =>
+    obtain ⟨p, hs, rfl, rfl, rfl⟩ := apply_rowIns rfl h
+    obtain ⟨rfl, hp, hi, hsg⟩ := hs
+    rw [isTernary_iff_ent hwf']
+    intro a ha b hb
+    rw [ent_insertRow M _ (by omega)]
+    split
+    · exact hte a (by omega) b hb
+    · split
+      · simp only [Step.newRow]; rw [getD_scaledRow]
+        exact isTernaryEntry_pm1_mul hsg (hte i hi b hb)
+      · exact hte (a - 1) (by omega) b hb
+  | ZC pos =>
+    obtain ⟨p, hs, rfl, rfl, rfl⟩ := apply_colIns rfl h
+    obtain ⟨rfl, hp⟩ := hs
+    rw [isTernary_iff_ent hwf']
+    intro a ha b hb
+    rw [ent_insertCol _ hwf hp ha]
+    split
+    · exact hte a ha b (by omega)
+    · split
+      · rfl
+      · exact hte a ha (b - 1) (by omega)
+  | UC pos i sg =>
+    obtain ⟨p, hs, rfl, rfl, rfl⟩ := apply_colIns rfl h
+    obtain ⟨rfl, hp, hi, hsg⟩ := hs
+    rw [isTernary_iff_ent hwf']
+    intro a ha b hb
+    rw [ent_insertCol _ hwf hp ha]
+    split
+    · exact hte a ha b (by omega)
+    · split
+      · simp only [Step.newCol]
+        split
+        · rw [isTernaryEntry_iff]; omega
+        · rfl
+      · exact hte a ha (b - 1) (by omega)
+  | DC pos j sg =>
+    obtain ⟨p, hs, rfl, rfl, rfl⟩ := apply_colIns rfl h
+    obtain ⟨rfl, hp, hj, hsg⟩ := hs
+    rw [isTernary_iff_ent hwf']
+    intro a ha b hb
+    rw [ent_insertCol _ hwf hp ha]
+    split
+    · exact hte a ha b (by omega)
+    · split
+      · simp only [Step.newCol]
+        exact isTernaryEntry_pm1_mul hsg (hte a ha j hj)
+      · exact hte a ha (b - 1) (by omega)
+
+
+/-- `steps_lift` with an invariant of the matrix that every step preserves (e.g. ternarity) -/
+theorem steps_lift_inv {c : Cls} (hc : c.dual = c) (V : Nat → Nat → Mat → Bool) (Inv : Nat → Nat → Mat → Prop)
+    (hinv : ∀ s m n M m' n' M', Step.apply m n M s = some (m', n', M') → M.wf m n = true → Inv m n M → Inv m' n' M')
+    (hiff : ∀ s : Step, s.rel c = .iff → ∀ m n M m' n' M', s.apply m n M = some (m', n', M') → M.wf m n = true → Inv m n M →
+      V m' n' M' = V m n M)
+    (himp : ∀ s : Step, s.rel c = .imp → ∀ m n M m' n' M', s.apply m n M = some (m', n', M') → M.wf m n = true → Inv m n M →
+      V m n M = true → V m' n' M' = true) :
+    ∀ steps : List Step, ∀ m n M m' n' M', applySteps m n M steps = some (m', n', M') →
+      M.wf m n = true → Inv m n M →
+      ((stepsRel c steps).2 = .iff → V m' n' M' = V m n M) ∧
+      ((stepsRel c steps).2 = .imp → V m n M = true → V m' n' M' = true) := by
+  intro steps
+  induction steps with
+  | nil =>
+    intro m n M m' n' M' h hwf _
+    simp only [applySteps, Option.some.injEq, Prod.mk.injEq] at h
+    obtain ⟨rfl, rfl, rfl⟩ := h
+    exact ⟨fun _ => rfl, fun _ h => h⟩
+  | cons s rest ih =>
+    intro m n M m' n' M' h hwf hI
+    simp only [applySteps] at h
+    split at h
+    · cases h
+    · rename_i m1 n1 M1 h1
+      have hwf1 := Step.apply_wf h1 hwf
+      have hI1 := hinv s m n M m1 n1 M1 h1 hwf hI
+      obtain ⟨ih1, ih2⟩ := ih m1 n1 M1 m' n' M' h hwf1 hI1
+      rw [stepsRel_cons, stepClass_selfdual hc]
+      simp only
+      constructor
+      · intro hr
+        obtain ⟨ha, hb⟩ := Rel.seq_eq_iff.mp hr
+        rw [ih1 hb, hiff s ha m n M m1 n1 M1 h1 hwf hI]
+      · intro hr hV
+        obtain ⟨ha, hb⟩ := Rel.seq_eq_imp hr
+        have hV1 : V m1 n1 M1 = true := by
+          rcases ha with ha | ha
+          · rw [hiff s ha m n M m1 n1 M1 h1 hwf hI]; exact hV
+          · exact himp s ha m n M m1 n1 M1 h1 hwf hI hV
+        rcases hb with hb | hb
+        · rw [ih1 hb]; exact hV1
+        · exact ih2 hb hV1
 
 /-! ### dual classes -/
 
